@@ -18,6 +18,7 @@ import (
 	"go/printer"
 	"go/token"
 	"os"
+	"path/filepath"
 	"sort"
 	"strings"
 	"unicode"
@@ -82,6 +83,26 @@ func init() {
 				for _, fp := range cache[file] {
 					if strings.HasPrefix(fp, key+"=") {
 						all = append(all, fp)
+					}
+				}
+			}
+			// generated protobuf code of the packages involved: one hash per file (wire field numbers, defaults)
+			pbDirs := map[string]bool{}
+			for _, fp := range all {
+				pbDirs[filepath.Dir(fp[:strings.Index(fp, ":")])] = true
+			}
+			var dirs []string
+			for d := range pbDirs {
+				dirs = append(dirs, d)
+			}
+			sort.Strings(dirs)
+			for _, d := range dirs {
+				ms, _ := filepath.Glob(filepath.Join(d, "*.pb.go"))
+				sort.Strings(ms)
+				for _, m := range ms {
+					if b, err := os.ReadFile(m); err == nil {
+						h := sha256.Sum256(b)
+						all = append(all, m+":<generated file>="+hex.EncodeToString(h[:6]))
 					}
 				}
 			}
